@@ -94,10 +94,16 @@ func (s *textSource) unread(n int) {
 }
 
 func genFlags(t *rapid.T, o histOpts) int {
+	f := 0
 	if o.ntl > 0 && rapid.IntRange(0, 99).Draw(t, "ntl") < o.ntl {
-		return lz.NoTrailingLiterals
+		f = lz.NoTrailingLiterals
 	}
-	return 0
+	if rapid.IntRange(0, 24).Draw(t, "otherFlagBits") == 0 {
+		// flags is a bit set with one bit defined: the others are ignored,
+		// whatever they are (a caller that passes its own flag word on)
+		f |= rapid.SampledFrom([]int{2, 0x100, 1 << 30, -2}).Draw(t, "flagBits")
+	}
+	return f
 }
 
 // genParserHistory draws and executes a history step by step (generation
@@ -214,7 +220,7 @@ func genParserHistory(t *rapid.T, x *parserExec, o histOpts) {
 			x.step(POp{Op: "readfrom", R: &rs})
 			src.unread(n - (len(x.fed) - before))
 		case 6:
-			x.step(POp{Op: "parsenil"})
+			x.step(POp{Op: "parsenil", Flags: genFlags(t, o)})
 		case 7:
 			x.step(POp{Op: "reset", Nil: true})
 		case 8: // Reset(data) with spare capacity
